@@ -235,6 +235,12 @@ theorem channels_unet2d_eq :
     fwc_unet2d_2_2_3_L3 = unetC 2 2 3 3 ∧
     fwc_unet2d_4_2_2_L4 = unetC 4 2 2 4 := by decide
 
+theorem channels_mdunet_eq :
+    fwc_mdunet_2_2_4_L1 = mdUnetC 2 2 4 1 ∧
+    fwc_mdunet_4_3_2_L2 = mdUnetC 4 3 2 2 ∧
+    fwc_mdunet_2_5_6_L3 = mdUnetC 2 5 6 3 ∧
+    fwc_mdunet_6_2_4_L0 = mdUnetC 6 2 4 0 := by decide
+
 theorem channels_normunet2d_eq :
     fwc_normunet2d_2_2_2_L2 = normUnetC 2 2 2 2 ∧
     fwc_normunet2d_6_2_3_L1 = normUnetC 6 2 3 1 ∧
